@@ -3,6 +3,6 @@ CONSTANTS
  MaxLen = 5
  NegLen = 2
  Exps <- ExpsFull
- Precs <- PrecsFull
+ Precs <- PrecsHigh
 INVARIANT Lemmas
 CHECK_DEADLOCK FALSE
